@@ -458,6 +458,16 @@ public:
     {
       return; // silent no-op on absent key
     }
+    {
+      // A key whose expiry has passed is absent for every reader even before the
+      // eviction worker has removed it; giving it a new expiry here would bring it
+      // back to life (and only when eviction happens to be late).
+      auto cur = _expiry.find(key);
+      if (cur != _expiry.end() && cur->second.expiry <= std::chrono::system_clock::now())
+      {
+        return;
+      }
+    }
     startTtlOrCleanup(lock);
 
     // An instant at or before the epoch is outside the replay plausibility window
@@ -534,9 +544,14 @@ public:
     {
       return; // absent
     }
-    if (_expiry.find(key) == _expiry.end())
+    auto cur = _expiry.find(key);
+    if (cur == _expiry.end())
     {
       return; // already permanent
+    }
+    if (cur->second.expiry <= std::chrono::system_clock::now())
+    {
+      return; // expired-not-yet-evicted: absent for readers, must not be resurrected
     }
 
     cancelTimerLocked(key);
